@@ -16,6 +16,10 @@ PRELUDE = r'''
 #include "nmtools/array/view/mutable_ref.hpp"
 #include "nmtools/array/view/mutable_slice.hpp"
 #include "nmtools/array/view/ufuncs/add.hpp"
+#include "nmtools/array/view/ufuncs/sin.hpp"
+#include "nmtools/array/view/matmul.hpp"
+#include "nmtools/array/view/expand_dims.hpp"
+#include "nmtools/array/view/broadcast_to.hpp"
 #include "nmtools/utility/isequal.hpp"
 #include "nmtools/utility/cast.hpp"
 #include "nmtools/utl.hpp"
@@ -25,6 +29,8 @@ using namespace nmtools::literals;
 using fixed_a  = na::ndarray_t<nmtools_array<float,6>, nmtools_tuple<meta::ct<2>,meta::ct<3>>>;   // constant shape, fixed buffer
 using fsfb_a   = na::ndarray_t<nmtools_array<float,6>, nmtools_array<size_t,2>>;
 using dyn_a    = na::ndarray_t<nmtools_list<float>, nmtools_list<size_t>>;
+using clip_shape = nmtools_tuple<nm::clipped_size_t<2>,nm::clipped_size_t<3>>;
+using clip_a   = na::ndarray_t<nm::utl::static_vector<float,6>, clip_shape>;                       // clipped (bounded) shape, bounded buffer
 template <class T> T& lv();
 '''
 
@@ -68,6 +74,27 @@ WITNESSES = [
    "void f(dyn_a& a){ auto v = nm::unwrap(view::transpose(a)); using V = decltype(v); static_assert(!meta::is_fixed_size_v<V>); static_assert(!meta::is_fixed_shape_v<V>); }"),
  W("c11_transpose_fixed", "C11", "pass", "transpose of a constant-shape operand keeps fixed size 6 and dimension 2",
    "void f(fixed_a& a){ auto v = nm::unwrap(view::transpose(a)); using V = decltype(v); static_assert(meta::fixed_size_v<V> == 6); static_assert(meta::fixed_dim_v<V> == 2); }"),
+ # ---------------- C11 / C09: an operand whose shape is only BOUNDED (clipped) never yields a view with compile-time-exact shape or size
+ W("c11_clip_unary", "C11", "pass", "a unary ufunc of a clipped-shape operand has no fixed shape/size (its run-time shape may be below the bounds), but a size bound >= 6",
+   "void f(clip_a& a){ auto v = nm::unwrap(view::sin(a)); using V = decltype(v); static_assert(!meta::is_fixed_shape_v<V>); static_assert(!meta::is_fixed_size_v<V>); static_assert(meta::bounded_size_v<V> >= 6); }"),
+ W("c11_clip_transpose", "C11", "pass", "transpose of a clipped-shape operand has no fixed shape/size",
+   "void f(clip_a& a){ auto v = nm::unwrap(view::transpose(a)); using V = decltype(v); static_assert(!meta::is_fixed_shape_v<V>); static_assert(!meta::is_fixed_size_v<V>); }"),
+ W("c11_clip_add_const", "C11", "pass", "constant-shape + clipped-shape operands: the broadcast result has no fixed shape/size",
+   "void f(fixed_a& a, clip_a& b){ auto v = nm::unwrap(view::add(a,b)); using V = decltype(v); static_assert(!meta::is_fixed_shape_v<V>); static_assert(!meta::is_fixed_size_v<V>); }"),
+ W("c11_clip_add_const_rev", "C11", "pass", "clipped-shape + constant-shape operands: the broadcast result has no fixed shape/size",
+   "void f(fixed_a& a, clip_a& b){ auto v = nm::unwrap(view::add(b,a)); using V = decltype(v); static_assert(!meta::is_fixed_shape_v<V>); static_assert(!meta::is_fixed_size_v<V>); }"),
+ W("c11_clip_concat_const", "C11", "pass", "concatenate(constant-shape, clipped-shape, ct axis) has no fixed shape/size and a size bound >= 12",
+   "void f(fixed_a& a, clip_a& b){ auto v = nm::unwrap(view::concatenate(a,b,0_ct)); using V = decltype(v); static_assert(!meta::is_fixed_shape_v<V>); static_assert(!meta::is_fixed_size_v<V>); static_assert(meta::bounded_size_v<V> >= 12); }"),
+ W("c11_clip_concat_const_rev", "C11", "pass", "concatenate(clipped-shape, constant-shape, ct axis) has no fixed shape/size and a size bound >= 12",
+   "void f(fixed_a& a, clip_a& b){ auto v = nm::unwrap(view::concatenate(b,a,0_ct)); using V = decltype(v); static_assert(!meta::is_fixed_shape_v<V>); static_assert(!meta::is_fixed_size_v<V>); static_assert(meta::bounded_size_v<V> >= 12); }"),
+ W("c11_clip_concat_axis1", "C11", "pass", "concatenate along axis 1 of (constant, clipped): no fixed shape/size",
+   "void f(fixed_a& a, clip_a& b){ auto v = nm::unwrap(view::concatenate(a,b,1_ct)); using V = decltype(v); static_assert(!meta::is_fixed_shape_v<V>); static_assert(!meta::is_fixed_size_v<V>); }"),
+ W("c11_clip_tile_ct", "C11", "pass", "tile of a clipped-shape operand with compile-time reps has no fixed shape/size",
+   "void f(clip_a& a){ auto v = nm::unwrap(view::tile(a, nmtools_tuple{2_ct,1_ct})); using V = decltype(v); static_assert(!meta::is_fixed_shape_v<V>); static_assert(!meta::is_fixed_size_v<V>); }"),
+ W("c11_clip_expand_dims", "C11", "pass", "expand_dims of a clipped-shape operand has no fixed shape/size",
+   "void f(clip_a& a){ auto v = nm::unwrap(view::expand_dims(a, 0_ct)); using V = decltype(v); static_assert(!meta::is_fixed_shape_v<V>); static_assert(!meta::is_fixed_size_v<V>); }"),
+ W("c11_const_concat_const", "C11", "pass", "concatenate of two constant-shape operands along a ct axis has the exact fixed size 12",
+   "void f(fixed_a& a){ auto v = nm::unwrap(view::concatenate(a,a,0_ct)); using V = decltype(v); static_assert(meta::fixed_size_v<V> == 12); }"),
  # ---------------- C18 / C19 / C02: rejected at compile time
  W("c18_fixed_len_mismatch", "C18", "fail", "isequal of fixed-length index arrays of different length is rejected at compile time (never read out of bounds)",
    "bool f(const nmtools_array<size_t,3>& a, const nmtools_array<size_t,2>& b){ return nm::utils::isequal(a,b); }"),
